@@ -57,6 +57,7 @@ vj_t *vj_new(json_type t)
 	v->j.refcount = 1;
 	v->ival = 0;
 	v->n = 0;
+	v->nk = 0;
 	for (k = 0; k < VJ_MAXM; k++) {
 		v->val[k] = NULL;
 		v->key[k][0] = '\0';
@@ -77,10 +78,7 @@ static void vj_release(vj_t *v)
 /* ---- deletion, depth-indexed: level 0 = leaf (children ignored: none by construction) ---- */
 static void vj_del0(vj_t *v)
 {
-	unsigned k;
-	for (k = 0; k < VJ_MAXM; k++)
-		VF_BOUND(v->val[k] == NULL || (v->j.type != JSON_OBJECT && v->j.type != JSON_ARRAY),
-			 "JSON tree deeper than the model's depth-indexed delete");
+	VF_BOUND(v->nk == 0, "JSON tree deeper than the model's depth-indexed delete (VJ_DEPTH)");
 	vj_release(v);
 }
 
@@ -105,6 +103,20 @@ static void vj_del2(vj_t *v)
 	vj_release(v);
 }
 
+#ifndef VJ_DEPTH
+#define VJ_DEPTH 3          /* maximal depth of any tree below its root */
+#endif
+#if VJ_DEPTH <= 1
+#define VJ_DEL_CHILD vj_del0
+#define VJ_COPY_ROOT vj_copy1
+#elif VJ_DEPTH == 2
+#define VJ_DEL_CHILD vj_del1
+#define VJ_COPY_ROOT vj_copy2
+#else
+#define VJ_DEL_CHILD vj_del2
+#define VJ_COPY_ROOT vj_copy3
+#endif
+
 void json_delete(json_t *json)
 {
 	vj_t *v = VJ(json);
@@ -114,7 +126,7 @@ void json_delete(json_t *json)
 		return;
 	if (v->j.type == JSON_OBJECT || v->j.type == JSON_ARRAY)
 		for (k = 0; k < VJ_MAXM; k++)
-			VJ_DECREF(vj_del2, v->val[k]);
+			VJ_DECREF(VJ_DEL_CHILD, v->val[k]);
 	vj_release(v);
 }
 
@@ -246,6 +258,7 @@ int json_object_set_new(json_t *object, const char *key, json_t *value)
 	for (k = 0; k < VJ_MAXM; k++) {
 		if (!o->val[k] && vj_keyeq(o->key[k], key)) {
 			o->val[k] = VJ(value);
+			o->nk++;
 			return 0;
 		}
 	}
@@ -257,6 +270,7 @@ int json_object_set_new(json_t *object, const char *key, json_t *value)
 			for (i = 0; i <= VJ_KLEN; i++)
 				o->key[k][i] = (i < klen) ? key[i] : '\0';
 			o->val[k] = VJ(value);
+			o->nk++;
 			return 0;
 		}
 	}
@@ -275,6 +289,7 @@ int json_object_del(json_t *object, const char *key)
 		if (o->val[k] && vj_keyeq(o->key[k], key)) {
 			json_decref(&o->val[k]->j);
 			o->val[k] = NULL;
+			o->nk--;
 			return 0;
 		}
 	}
@@ -294,6 +309,7 @@ int json_object_clear(json_t *object)
 			o->val[k] = NULL;
 		}
 	}
+	o->nk = 0;
 	return 0;
 }
 
@@ -358,6 +374,7 @@ int json_array_append_new(json_t *array, json_t *value)
 	}
 	VF_BOUND(a->n < VJ_MAXM, "array capacity VJ_MAXM exceeded");
 	a->val[a->n++] = VJ(value);
+	a->nk++;
 	return 0;
 }
 
@@ -376,6 +393,7 @@ static vj_t *vj_copy_node(const vj_t *s)
 		return NULL;
 	d->ival = s->ival;
 	d->n = s->n;
+	d->nk = s->nk;
 	for (i = 0; i <= VJ_SLEN; i++)
 		d->s[i] = s->s[i];
 	for (k = 0; k < VJ_MAXM; k++)
@@ -414,12 +432,22 @@ static vj_t *vj_copy1(const vj_t *s) { VJ_COPY_BODY(vj_copy0, vj_del0) }
 static vj_t *vj_copy2(const vj_t *s) { VJ_COPY_BODY(vj_copy1, vj_del1) }
 static vj_t *vj_copy3(const vj_t *s) { VJ_COPY_BODY(vj_copy2, vj_del2) }
 
+/* harness helper: clone of a tree whose members are scalars or empty containers */
+json_t *vj_clone(const json_t *value)
+{
+	vj_t *d;
+	if (!value)
+		return NULL;
+	d = vj_copy1(VJ(value));
+	return d ? &d->j : NULL;
+}
+
 json_t *json_deep_copy(const json_t *value)
 {
 	vj_t *d;
 	if (!value)
 		return NULL;
-	d = vj_copy3(VJ(value));
+	d = VJ_COPY_ROOT(VJ(value));
 	return d ? &d->j : NULL;
 }
 
@@ -531,6 +559,7 @@ json_t *vj_havoc_scalar_or_empty(void)
 	v->j.type = vj_nondet_type();
 	v->j.refcount = 1;
 	v->n = 0;
+	v->nk = 0;
 	for (k = 0; k < VJ_MAXM; k++) {
 		v->val[k] = NULL;
 		v->key[k][0] = '\0';
@@ -563,6 +592,7 @@ json_t *vj_havoc_value(int depth)
 			if ((v->j.type == JSON_OBJECT && nondet_bool()) ||
 			    (v->j.type == JSON_ARRAY && k < n)) {
 				v->val[k] = c;
+				v->nk++;
 			} else {
 				/* not attached: hand the node back */
 				vj_live--;
@@ -588,6 +618,7 @@ json_t *vj_havoc_object(const char *const *alpha, unsigned nalpha, int depth)
 	o->j.refcount = 1;
 	o->ival = 0;
 	o->n = 0;
+	o->nk = 0;
 	o->s[0] = '\0';
 	vj_live++;
 	VF_BOUND(nalpha <= VJ_MAXM, "alphabet larger than VJ_MAXM");
@@ -596,8 +627,10 @@ json_t *vj_havoc_object(const char *const *alpha, unsigned nalpha, int depth)
 		o->key[k][0] = '\0';
 		if (k < nalpha) {
 			strcpy(o->key[k], alpha[k]);
-			if (nondet_bool())
+			if (nondet_bool()) {
 				o->val[k] = VJ(vj_havoc_value(depth));
+				o->nk++;
+			}
 		}
 	}
 	return &o->j;
@@ -615,6 +648,7 @@ json_t *vj_havoc_array(unsigned maxn, int depth)
 	a->ival = 0;
 	a->s[0] = '\0';
 	a->n = n;
+	a->nk = n;
 	vj_live++;
 	for (k = 0; k < VJ_MAXM; k++) {
 		a->val[k] = NULL;
